@@ -21,7 +21,7 @@ PROP = Prop(
          "and without re-fixed CRCs, boundary values in header fields, random mutations, arbitrary bytes, offsets at the edge of int64). "
          "Model output (Lean, CRC-32 and the decompressor graph as parameters) must equal the implementation's output textually; verdict = "
          "Spec.C06.holds (reference decoder on the generator's ground truth: records equal in order and every field, next offset laws) for streams 1-2, "
-         "Spec.C06.holdsAny + no panic/hang for stream 3. non-trivial = the walk sees >= 2 frames or ends with an error. distinct = distinct op lines.",
+         "Spec.C06.holdsAny + no panic/hang for stream 3. non-trivial = the walk sees >= 2 frames, or ends in a cut frame / unknown magic, or ends with an error (trivial: fewer than 18 bytes, or exactly one complete well-formed frame). distinct = distinct op lines.",
     trusted_base=["hand-written Lean model of ProcessFetchPartition and its callees (Model/C06.lean), tied to the source by the differential run "
                   "(exact textual equality of records, next offset and error class on every case)",
                   "modelled, not verified: CRC-32 IEEE/Castagnoli (bitwise implementation in the driver, parameters of the theorems), the "
